@@ -37,7 +37,8 @@ def build_engine(K, needs_hist, chains, seed, J, init_cfgs, included=(), exclude
     model = (ComputingDictInterface if computing else gs.DictInterface)(lambda s: jnp.asarray(0.0))
     kernels = []
     for k in range(1, K + 1):
-        cls = ProbeKernel if not error_books else BOOKED[k]      # classes with their own error books (picklable)
+        # classes with their own error books (picklable); "shared": every kernel is of the same class (one book)
+        cls = ProbeKernel if not error_books else BOOKED[1 if error_books == "shared" else k]
         ker = cls([keys[k - 1]], kidx=k, cap=cap, needs_history=(k in needs_hist),
                           all_keys=keys, error_table=None if error_tables is None else error_tables[k - 1],
                   tune_error_chains=tune_error_chains)
